@@ -411,6 +411,11 @@ func genC20(r *hx.Rng, st *hx.Stats) c20spec {
 			continue
 		}
 		k := genWord(r, nameAlphabet, 1, 5)
+		if r.Chance(12) {
+			// names that are members of Object.prototype: process.env must hold them like any other name
+			k = []string{"__proto__", "constructor", "toString", "hasOwnProperty", "valueOf", "__defineGetter__", "length"}[r.Intn(7)]
+			st.Hit("env:object-member-name")
+		}
 		if seen[k] {
 			continue
 		}
